@@ -11,6 +11,7 @@ MUTANTS = [
     ("result-mutates-self", D, "        return self.__class__(\n            self.mother,\n            {self.mother: DecayMode(vis_bf, fs, **self.top_level_decay().metadata)},\n        )", "        self.decays = {self.mother: DecayMode(vis_bf, fs, **self.top_level_decay().metadata)}\n        return self", "C12"),
     ("visible-bf-top", D, "        return self.flatten().bf", "        return self.top_level_decay().bf", "C12.4"),
     ("bf-init-one", D, "        vis_bf = self.bf\n", "        vis_bf = 1.0\n", "C12.3"),
+    ("ctor-rounds-bf", D, "        self.bf = bf\n", "        self.bf = round(bf, 12)\n", "C12.5"),
     ("any-first-key", D, "            further_to_replace = any(fs[_k] > 0 for _k in keys)", "            further_to_replace = any(fs[_k] > 0 for _k in keys[:1])", "C12.2"),
 ]
 BENIGN = [
